@@ -25,6 +25,7 @@ import PGProofs.RewardsThm
 import PGProofs.SampleConsistency
 import PGProofs.Marginal
 import PGProofs.MomentsThm
+import PGProofs.MarginalsThm
 
 set_option linter.all false
 set_option pp.fieldNotation.generalized false
@@ -71,6 +72,42 @@ theorem cross_moment_symmetric : ∀ {ρ : Type u_1} [inst : Inhabited ρ] (raw 
 /-- rewards may be changed outside a closed class carrying the initial mass -/
 theorem unreachable_states_irrelevant : ∀ {K : Type} [inst : Field K] [inst_1 : LinearOrder K] [inst_2 : IsStrictOrderedRing K] {ι : Type} [inst_3 : Fintype ι] [inst_4 : DecidableEq ι] {k : ℕ} (L : ExpLaw K) (S : ℕ → Matrix ι ι K) (R R' : Fin k → ι → K) (α : ι → K) (N : Finset ι), (∀ (e : ℕ) (i j : ι), i ∈ N → j ∉ N → S e i j = 0) → (∀ i ∉ N, α i = 0) → (∀ (a : Fin k), ∀ i ∈ N, R a i = R' a i) → ∀ (fs : List (ℕ × K)), accumVal L S R α fs = accumVal L S R' α fs := @PG.Marginal.accumVal_congr_closed
 
+/-- ASSEMBLY LAYER (MarginalDeme/LocusDistributions): get_cov(a, b) = get_cov(b, a), exceptions included -/
+theorem marg_getcov_symm : ∀ {K : Type} [inst : Field K] [CharZero K] [inst_2 : MomVal K] [Marginals.LawfulMomVal K] (d : Marginals.Dist) (raw : List Reward → K) (k : Marginals.Kind) (a b : ℕ), Marginals.getCov Marginals.Variant.current d raw k a b = Marginals.getCov Marginals.Variant.current d raw k b a := @PG.Marginals.getCov_symm
+
+/-- the diagonal of cov is the variance of the sub-distribution of that part -/
+theorem marg_cov_diag : ∀ {K : Type} [inst : Field K] [CharZero K] [inst_2 : MomVal K] [Marginals.LawfulMomVal K] (d : Marginals.Dist) (raw : List Reward → K) (k : Marginals.Kind), ∀ a < Marginals.Dist.size d k, Marginals.getCov Marginals.Variant.current d raw k a a = Except.ok (Marginals.margVar raw d.reward k a) := @PG.Marginals.cov_diag_eq_margVar
+
+/-- the matrix [[get_cov(p1, p2) for p1] for p2] is symmetric (the transpose layout is harmless) -/
+theorem marg_cov_matrix_symm : ∀ {K : Type} [inst : Field K] [CharZero K] [inst_2 : MomVal K] [Marginals.LawfulMomVal K] (d : Marginals.Dist) (raw : List Reward → K) (k : Marginals.Kind) (M : List (List K)), Marginals.covMatrix Marginals.Variant.current d raw k = Except.ok M → ∀ (i j : ℕ), i < Marginals.Dist.size d k → j < Marginals.Dist.size d k → Marginals.entry M i j = Marginals.entry M j i := @PG.Marginals.cov_matrix_symm
+
+/-- the entries of cov sum to the variance of the total whenever the part rewards sum to the total reward (slot-additive raw functional) -/
+theorem marg_cov_sum : ∀ {K : Type} [inst : Field K] [CharZero K] [inst_2 : MomVal K] [Marginals.LawfulMomVal K] {n : ℕ} {S : State → Prop} {raw : List Reward → K} (d : Marginals.Dist) (k : Marginals.Kind), Marginals.SlotAdditiveOn n S raw → Marginals.IsPartition n S d k → ∑ a ∈ Finset.range (Marginals.Dist.size d k), ∑ b ∈ Finset.range (Marginals.Dist.size d k), Marginals.covCore Marginals.Variant.current d raw k a b = Marginals.distVar raw d.reward := @PG.Marginals.cov_sum_eq_var
+
+/-- part means sum to the mean -/
+theorem marg_mean_sum : ∀ {K : Type} [inst : Field K] [CharZero K] [inst_2 : MomVal K] [Marginals.LawfulMomVal K] {n : ℕ} {S : State → Prop} {raw : List Reward → K} (d : Marginals.Dist) (k : Marginals.Kind), Marginals.SlotAdditiveOn n S raw → Marginals.IsPartition n S d k → ∑ i ∈ Finset.range (Marginals.Dist.size d k), Marginals.margMean raw d.reward k i = Marginals.distMean raw d.reward := @PG.Marginals.mean_sum_eq_mean
+
+/-- deme rewards partition any base reward on states with at least one lineage -/
+theorem marg_partition_demes : ∀ (n : ℕ) (S : State → Prop) (d : Marginals.Dist), (∀ (s : State), S s → Marginals.DemeShape d.nDemes s) → Marginals.IsPartition n S d Marginals.Kind.demes := @PG.Marginals.isPartition_demes
+
+/-- locus rewards partition the total branch length -/
+theorem marg_partition_loci : ∀ (n : ℕ) (S : State → Prop) (d : Marginals.Dist), d.reward = Reward.totalBranchLength → (∀ (s : State), S s → State.nLoci s = d.nLoci) → Marginals.IsPartition n S d Marginals.Kind.loci := @PG.Marginals.isPartition_loci_tbl
+
+/-- corr * (sd_a sd_b) = cov and corr^2 var_a var_b = cov^2 (exact square roots) -/
+theorem marg_corr : ∀ {K : Type} [inst : Field K] [CharZero K] [inst_2 : MomVal K] [Marginals.LawfulMomVal K] (ops : Marginals.CorrOps K), Marginals.CorrOps.Lawful ops → ∀ (d : Marginals.Dist) (raw : List Reward → K) (k : Marginals.Kind) (a b : ℕ), a < Marginals.Dist.size d k → b < Marginals.Dist.size d k → ops.sqrt (Marginals.margVar raw d.reward k a) * ops.sqrt (Marginals.margVar raw d.reward k a) = Marginals.margVar raw d.reward k a → ops.sqrt (Marginals.margVar raw d.reward k b) * ops.sqrt (Marginals.margVar raw d.reward k b) = Marginals.margVar raw d.reward k b → Marginals.margVar raw d.reward k a ≠ 0 → Marginals.margVar raw d.reward k b ≠ 0 → ∃ c, Marginals.getCorr ops Marginals.Variant.current d raw k a b = Except.ok c ∧ c * (ops.sqrt (Marginals.margVar raw d.reward k a) * ops.sqrt (Marginals.margVar raw d.reward k b)) = Marginals.covCore Marginals.Variant.current d raw k a b ∧ c ^ 2 * Marginals.margVar raw d.reward k a * Marginals.margVar raw d.reward k b = Marginals.covCore Marginals.Variant.current d raw k a b ^ 2 := @PG.Marginals.corr_is_normalised_cov
+
+/-- corr[a][a] = 1 when the variance is non-zero -/
+theorem marg_corr_diag : ∀ {K : Type} [inst : Field K] [CharZero K] [inst_2 : MomVal K] [Marginals.LawfulMomVal K] (ops : Marginals.CorrOps K), Marginals.CorrOps.Lawful ops → ∀ (d : Marginals.Dist) (raw : List Reward → K) (k : Marginals.Kind), ∀ a < Marginals.Dist.size d k, ops.sqrt (Marginals.margVar raw d.reward k a) * ops.sqrt (Marginals.margVar raw d.reward k a) = Marginals.margVar raw d.reward k a → Marginals.margVar raw d.reward k a ≠ 0 → Marginals.getCorr ops Marginals.Variant.current d raw k a a = Except.ok 1 := @PG.Marginals.corr_diag_one
+
+/-- a part whose reward the functional kills has mean, variance and covariances 0 -/
+theorem marg_empty_part : ∀ {K : Type} [inst : Field K] [CharZero K] [inst_2 : MomVal K] [Marginals.LawfulMomVal K] (d : Marginals.Dist) (raw : List Reward → K) (k : Marginals.Kind) (i : ℕ), Marginals.KillsPart raw (Marginals.subReward d.reward k i) → Marginals.margMean raw d.reward k i = 0 ∧ Marginals.margVar raw d.reward k i = 0 ∧ ∀ (a : ℕ), Marginals.covCore Marginals.Variant.current d raw k a i = 0 ∧ Marginals.covCore Marginals.Variant.current d raw k i a = 0 := @PG.Marginals.empty_part_zero
+
+/-- all of the above for the code model functional codeRaw (slot additivity from accumVal_slot_linear) -/
+theorem marg_code_demes : type_of% @PG.Marginals.code_deme_marginals := @PG.Marginals.code_deme_marginals   -- (printed statement does not re-elaborate; see the source lemma)
+
+/-- kernel-checked: permute=False in get_cov with a symmetrised .cov leaves get_cov / corr asymmetric -/
+theorem marg_no_permute_defect : Marginals.covCore Marginals.Variant.demeCovNoPermute Marginals.Examples.distA Marginals.Examples.rawA Marginals.Kind.demes 0 1 = 25 / 18 ∧ Marginals.covCore Marginals.Variant.demeCovNoPermute Marginals.Examples.distA Marginals.Examples.rawA Marginals.Kind.demes 1 0 = 5 / 6 := @PG.Marginals.Examples.demeCovNoPermute_violates_getCov_symm
+
 end PG.C12
 
 #print axioms PG.C12.empty_deme_zero
@@ -86,3 +123,15 @@ end PG.C12
 #print axioms PG.C12.mean_linear
 #print axioms PG.C12.cross_moment_symmetric
 #print axioms PG.C12.unreachable_states_irrelevant
+#print axioms PG.C12.marg_getcov_symm
+#print axioms PG.C12.marg_cov_diag
+#print axioms PG.C12.marg_cov_matrix_symm
+#print axioms PG.C12.marg_cov_sum
+#print axioms PG.C12.marg_mean_sum
+#print axioms PG.C12.marg_partition_demes
+#print axioms PG.C12.marg_partition_loci
+#print axioms PG.C12.marg_corr
+#print axioms PG.C12.marg_corr_diag
+#print axioms PG.C12.marg_empty_part
+#print axioms PG.C12.marg_code_demes
+#print axioms PG.C12.marg_no_permute_defect
